@@ -36,6 +36,7 @@ type c09Family struct {
 	multi   bool // spawns
 	inTry   bool // a catch block exists that must not catch the limit error
 	leak    bool // iteration workload: per-iteration resource levels must be constant
+	multiWide bool // spawns one core whose frame is wide (peak measured on the same function run as entry core)
 	interp  bool // also meaningful for the interpreter (call depth only)
 	depthOf func(d int) int // interpreter call depth as a function of d (model)
 }
@@ -80,6 +81,28 @@ fn main() { try { println("r", r(%d)); } catch e { println("caught"); } println(
 fn r(n: int) -> int { if n == 0 { 0 } else { 1 + r(n - 1) } }
 fn w(n: int) { println("w", r(n)); }
 fn main() { spawn w(%d); let c = 0; while c < 400 { c = c + 1; g = g + 1; } println("main done"); }`, d)
+	}},
+	{name: "wide-frame", gen: func(d int) string {
+		var b strings.Builder
+		b.WriteString("fn wide(n: int) -> int {\n")
+		for i := 0; i < d; i++ {
+			fmt.Fprintf(&b, "    let v%d = n + %d;\n", i, i)
+		}
+		b.WriteString("    v0")
+		for i := 1; i < d; i += 7 {
+			fmt.Fprintf(&b, " + v%d", i)
+		}
+		b.WriteString("\n}\nfn main() { println(\"w\", wide(1)); }")
+		return b.String()
+	}},
+	{name: "wide-frame-spawned", multiWide: true, gen: func(d int) string {
+		var b strings.Builder
+		b.WriteString("fn wide(n: int) {\n")
+		for i := 0; i < d; i++ {
+			fmt.Fprintf(&b, "    let v%d = n + %d;\n", i, i)
+		}
+		fmt.Fprintf(&b, "    println(\"w\", v0 + v%d);\n}\nfn main() { spawn wide(1); println(\"main done\"); }", d-1)
+		return b.String()
 	}},
 	{name: "recursion-via-value", interp: true, depthOf: func(d int) int { return d + 1 }, gen: func(d int) string {
 		return fmt.Sprintf(`fn r(n: int) -> int { let f = r; if n == 0 { 0 } else { 1 + f(n - 1) } }
@@ -193,6 +216,9 @@ func c09Exec(t *testing.T, spec RunSpec, src string, backend int, limits runtime
 	out := &Out{}
 	ctx := NewCtx()
 	cfg := simConfig(spec.Sim)
+	if backend == 1 && spec.P("d", 0) >= 2000 {
+		cfg.TaskStepBudget = 1_500_000_000 // the interpreter's variable lookup is linear in the call depth
+	}
 	var cores []*runtime.Core
 	if measure && backend == 0 {
 		cfg.StepHook = func() {
@@ -279,6 +305,26 @@ func c09Reference(t *testing.T, fam, d, backend int) *c09Ref {
 	ref := &c09Ref{}
 	c09Refs[key] = ref
 	f := c09Families[fam]
+	if f.multiWide {
+		var wf int
+		for i, ff := range c09Families {
+			if ff.name == "wide-frame" {
+				wf = i
+			}
+		}
+		base := c09Reference(t, wf, d, backend)
+		if base.err != "" {
+			ref.err = base.err
+			return ref
+		}
+		own := c09ReferenceRaw(t, f, d, backend)
+		if own.err != "" {
+			return own
+		}
+		own.run.peakAll = maxSample(own.run.peakAll, c09Sample{base.run.peakAll.call + 1, base.run.peakAll.stack + 3, base.run.peakAll.mem + 3, 0})
+		*ref = *own
+		return ref
+	}
 	if f.multi {
 		// The overflowing core is a spawned one, whose Core the host cannot
 		// observe: its demand is that of the same recursion run as entry core.
@@ -301,7 +347,7 @@ func c09Reference(t *testing.T, fam, d, backend int) *c09Ref {
 
 func c09ReferenceRaw(t *testing.T, f c09Family, d, backend int) *c09Ref {
 	ref := &c09Ref{}
-	spec := RunSpec{Property: "C09", Sim: SimParams{StepCostNs: 1000}, Choices: &simrt.Sparse{}}
+	spec := RunSpec{Property: "C09", Params: map[string]int{"d": d, "backend": backend}, Sim: SimParams{StepCostNs: 100}, Choices: &simrt.Sparse{}}
 	res, rr, err := c09Exec(t, spec, f.gen(d), backend, runtime.CoreLimits{CallStackMaxSize: 20000, StackMaxSize: 50000, MaxMemorySize: 200000}, 20000, true)
 	if err != nil {
 		ref.err = err.Error()
@@ -550,6 +596,19 @@ func planC09(t *testing.T, tier string, seed uint64) ([]RunSpec, error) {
 				}
 			}
 		}
+	}
+	// interpreter: recursion depths and limits in the thousands (a limit the host configures
+	// must be the limit that is enforced, also when it is large)
+	bigs := []struct{ d, k int }{{9000, 12000}, {9000, 8000}}
+	if !quick(tier) {
+		bigs = []struct{ d, k int }{{9000, 9003}, {9000, 12000}, {9000, 20000}, {9000, 8000}, {9000, 4000}, {3000, 3003}, {3000, 2500}}
+	}
+	for _, big := range bigs {
+		s := RunSpec{Property: "C09", Workload: "c09/recursion/interp-large", Params: map[string]int{"fam": 0, "d": big.d, "backend": 1}, Fault: map[string]int{"kind": 0, "k": big.k}}
+		s.Sim = SimParams{StepCostNs: 100}
+		s.Seed = runSeed(seed, idx)
+		idx++
+		plan = append(plan, s)
 	}
 	return plan, nil
 }
